@@ -97,6 +97,21 @@ func OpenFSLog(homeDir string) (Log, error) {
 		seqNum := logFiles[len(logFiles)-1].seqNum
 		logFileName := l.generateLogFileName(seqNum)
 		l.curFile, err = openLogFile(logFileName)
+
+		// A crash right after rolling to a new file (or while writing its
+		// first record) leaves an empty last file next to older ones. The
+		// rest of the code assumes that the current file can only be empty
+		// if the whole log is (see FirstID, LastID, Append and
+		// getFileContainingID), so drop such a file and continue with its
+		// predecessor.
+		for err == nil && l.curFile.empty && len(l.existingFiles) > 1 {
+			l.curFile.Close()
+			last := len(l.existingFiles) - 1
+			if err = l.deleteFiles(l.existingFiles[last:], deleteFromBack, "Open"); err == nil {
+				seqNum = l.existingFiles[len(l.existingFiles)-1].seqNum
+				l.curFile, err = openLogFile(l.generateLogFileName(seqNum))
+			}
+		}
 	}
 	if err != nil {
 		return nil, err
@@ -382,6 +397,12 @@ func (l *fsLog) getFileUnlocked(seqNum int) (f *logFile, err error) {
 func (l *fsLog) Append(recs ...Record) error {
 	l.lock.Lock()
 	defer l.lock.Unlock()
+
+	if len(recs) == 0 {
+		// Nothing to write. In particular, don't roll to a new file that
+		// would stay empty.
+		return nil
+	}
 
 	// Make sure the client is supplying consecutive Record IDs.
 	lastID := l.curFile.lastID
